@@ -335,18 +335,58 @@ pub fn gen_coll(rng: &mut Rng, depth: u32) -> Value {
 }
 
 fn opt_bool(rng: &mut Rng) -> Option<Value> {
-    match rng.below(12) {
-        0..=3 => None,
-        4..=7 => Some(Value::Boolean(true)),
-        8..=10 => Some(Value::Boolean(false)),
+    match rng.below(40) {
+        0..=12 => None,
+        13..=25 => Some(Value::Boolean(true)),
+        26..=38 => Some(Value::Boolean(false)),
         _ => Some(Value::Integer(1)),
+    }
+}
+
+/// a container (array or object) most of the time
+fn gen_container(rng: &mut Rng, depth: u32, object: bool) -> Value {
+    if rng.chance(1, 12) {
+        return gen_coll(rng, depth);
+    }
+    let n = rng.below(6);
+    if object {
+        let mut m = ObjectMap::new();
+        for _ in 0..n {
+            m.insert((*rng.pick(KEYS)).into(), gen_coll(rng, depth - 1));
+        }
+        Value::Object(m)
+    } else {
+        Value::Array((0..n).map(|_| gen_coll(rng, depth - 1)).collect())
     }
 }
 
 fn emit(sink: &mut Sink, op: &str, args: &[Option<&Value>]) {
     let a: Vec<String> = args.iter().map(|v| opt(*v)).collect();
-    if sink.emit(op, &a).is_none() {
-        sink.count("c28:not_executable");
+    match sink.emit(op, &a) {
+        None => sink.count("c28:not_executable"),
+        // measured input distribution: how often the function was applicable and what it answered
+        Some(r) if op.starts_with("c28.") => {
+            let f = &op[4..];
+            let bucket = if r.reply == "err" {
+                "err"
+            } else if r.reply == "panic" {
+                "panic"
+            } else if r.reply == "ok\tt" {
+                "true"
+            } else if r.reply == "ok\tf" {
+                "false"
+            } else if f == "split" {
+                if r.reply.matches(" b:").count() > 1 { "ok_several_pieces" } else { "ok_one_piece" }
+            } else if r.reply == "ok\t[ ]" || r.reply == "ok\t{ }" || r.reply == "ok\tb:" {
+                "ok_empty"
+            } else if a.first().is_some_and(|x| r.reply == format!("ok\t{x}")) {
+                "ok_unchanged"
+            } else {
+                "ok_changed"
+            };
+            sink.count(&format!("c28:{f}:{bucket}"));
+        }
+        Some(_) => {}
     }
 }
 
@@ -436,8 +476,9 @@ fn string_cases(sink: &mut Sink, rng: &mut Rng) {
     }
 }
 
-fn gen_idx(rng: &mut Rng, len: i64) -> Value {
-    match rng.below(12) {
+/// `lo` = (normalised) lower bound the index should mostly respect
+fn gen_idx(rng: &mut Rng, len: i64, lo: i64) -> Value {
+    match rng.below(30) {
         0 => Value::Integer(i64::MIN),
         1 => Value::Integer(i64::MAX),
         2 => Value::Null,
@@ -445,7 +486,10 @@ fn gen_idx(rng: &mut Rng, len: i64) -> Value {
         4 => Value::Integer(-len),
         5 => Value::Integer(len + 1),
         6 => Value::Integer(-len - 1),
-        _ => Value::Integer(rng.range(-len - 1, len + 1)),
+        7..=9 => Value::Integer(rng.range(-len - 1, len + 1)),
+        10..=19 => Value::Integer(rng.range(lo, len + 1)),
+        // the same position counted from the end
+        _ => Value::Integer(rng.range(lo, len) - len),
     }
 }
 
@@ -461,8 +505,13 @@ fn coll_cases(sink: &mut Sink, rng: &mut Rng) {
         Value::Array(a) => a.len() as i64,
         _ => 3,
     };
-    let st = gen_idx(rng, len);
-    let en = if rng.chance(1, 3) { None } else { Some(gen_idx(rng, len)) };
+    let st = gen_idx(rng, len, 0);
+    let lo = match st {
+        Value::Integer(i) if (0..=len).contains(&i) => i,
+        Value::Integer(i) if (-len..0).contains(&i) => i + len,
+        _ => 0,
+    };
+    let en = if rng.chance(1, 3) { None } else { Some(gen_idx(rng, len, lo)) };
     emit(sink, "c28.slice", &[Some(&v), Some(&st), en.as_ref()]);
     emit(sink, "o.c28.slice", &[Some(&v), Some(&st), en.as_ref()]);
     // unique
@@ -475,14 +524,16 @@ fn coll_cases(sink: &mut Sink, rng: &mut Rng) {
     emit(sink, "c28.unique", &[Some(&u)]);
     emit(sink, "o.c28.unique", &[Some(&u)]);
     // compact: every option independently absent / true / false / ill-typed
-    let c = gen_coll(rng, 3);
+    let obj = rng.chance(1, 2);
+    let c = gen_container(rng, 3, obj);
     let opts: Vec<Option<Value>> = (0..6).map(|_| opt_bool(rng)).collect();
     let mut args: Vec<Option<&Value>> = vec![Some(&c)];
     args.extend(opts.iter().map(Option::as_ref));
     emit(sink, "c28.compact", &args);
     emit(sink, "o.c28.compact", &args);
     // keys / values / length
-    let o = gen_coll(rng, 2);
+    let obj = rng.chance(5, 6);
+    let o = gen_container(rng, 2, obj);
     for f in ["keys", "values", "length"] {
         emit(sink, &format!("c28.{f}"), &[Some(&o)]);
     }
